@@ -471,4 +471,361 @@ theorem parseBeacon_agrees (f : Bytes) :
       rw [h1, h2]
       exact ⟨rfl, rfl⟩
 
+/-! ### `Dot11Data` / `Dot11QoSData`: the header fields the decrypters and the capturer read -/
+
+theorem layout_data : Tins.Wire.Wifi.layoutOf "Dot11Data" = some ⟨.data, [], false, true⟩ := by
+  simp [Tins.Wire.Wifi.layoutOf]
+
+theorem layout_qosdata : Tins.Wire.Wifi.layoutOf "Dot11QoSData" = some ⟨.data, [2], false, true⟩ := by
+  simp [Tins.Wire.Wifi.layoutOf]
+
+open Tins.Wire.Wifi in
+/-- what the `Dot11Data` / `Dot11QoSData` constructor leaves below the header -/
+def wireInner (f : Bytes) (n : Nat) : Tins.Wire.Inner :=
+  if f.length ≤ n then .none
+  else if byteAt (f.take 10) 1 / 64 % 2 == 1 then .raw (f.drop n) else .cls "SNAP" (f.drop n) false
+
+open Tins.Wire.Wifi in
+/-- the `Dot11Data(buffer, total_sz)` / `Dot11QoSData(buffer, total_sz)` constructor chains of the wire family in
+    closed form (`q` = 0 / 2 octets of QoS control) -/
+theorem wire_data_eq (f : Bytes) (qosCls : Bool) :
+    Dot11.parse (if qosCls then "Dot11QoSData" else "Dot11Data") f =
+      (let both := (f.getD 1 0 &&& 1 != 0) && (f.getD 1 0 &&& 2 != 0)
+       let off := if both then 30 else 24
+       let q := if qosCls then 2 else 0
+       if f.length < off + q then .throw .malformedPacket else
+       .ok (⟨if qosCls then "Dot11QoSData" else "Dot11Data", ⟨.data, if qosCls then [2] else [], false, true⟩, f.take 10,
+             (f.drop 10).take 14, if both then (f.drop 24).take 6 else zeros 6, (f.drop off).take q, [], 0⟩,
+            wireInner f (off + q))) := by
+  unfold Dot11.parse
+  cases qosCls
+  · -- Dot11Data
+    simp only [Bool.false_eq_true, if_false, layout_data]
+    unfold Dot11.parseWith Dot11.parseBase Dot11.parseExt wireInner
+    simp only [Tins.Cursor.ofBytes, Tins.Cursor.read, Tins.Cursor.skip, Tins.Cursor.canRead, bind, Tins.Out.bind, pure,
+      Bool.false_eq_true, if_false, Dot11.readChunks, Dot11.parseOpts, if_true, Tins.Cursor.toBool, Tins.Wire.Cursor.rest,
+      Tins.rdN]
+    by_cases h24 : 24 ≤ f.length
+    · have hboth : bothDS (f.take 10) = ((f.getD 1 0 &&& 1 != 0) && (f.getD 1 0 &&& 2 != 0)) := by
+        unfold bothDS byteAt
+        rw [getD_take f 10 1 (by omega)]
+        exact both_bits _
+      have h10 : 10 ≤ f.length := by omega
+      simp only [h10, show ¬ (f.length < 10) by omega, show ¬ (10 > f.length) by omega, show 14 ≤ f.length - 10 by omega,
+        show ¬ ((f.drop 10).length < 14) by simp; omega, decide_true, Bool.not_true, Bool.false_eq_true, if_false]
+      rw [hboth]
+      have e3 : List.drop 14 (List.drop 10 f) = List.drop 24 f := by simp [List.drop_drop]
+      cases hb : ((f.getD 1 0 &&& 1 != 0) && (f.getD 1 0 &&& 2 != 0))
+      · by_cases hgt : f.length ≤ 24
+        · have : f.length = 24 := by omega
+          simp [this, hgt]
+        · simp [show ¬ f.length < 24 by omega, hgt, show f.length - 24 > 0 by omega,
+            show 0 + (f.length - 24) ≤ (f.drop 24).length by simp]
+          split <;> simp [List.take_of_length_le]
+      · by_cases h30 : 30 ≤ f.length
+        · by_cases hgt : f.length ≤ 30
+          · have : f.length = 30 := by omega
+            simp [this, e3]
+          · simp [show 6 ≤ f.length - 10 - 14 by omega, show ¬ f.length - 24 < 6 by omega, show ¬ f.length - 10 - 14 < 6 by omega,
+              e3, show ¬ f.length < 30 by omega, hgt, show f.length - 30 > 0 by omega,
+              show 0 + (f.length - 30) ≤ (f.drop 30).length by simp]
+            split <;> simp [List.take_of_length_le]
+        · simp [show ¬ 6 ≤ f.length - 10 - 14 by omega, show f.length < 30 by omega]
+    · have hlt : f.length < (if ((f.getD 1 0 &&& 1 != 0) && (f.getD 1 0 &&& 2 != 0)) = true then 30 else 24) + 0 := by
+        split <;> omega
+      rw [if_pos hlt]
+      by_cases h10 : 10 ≤ f.length
+      · simp [h10, show ¬ f.length < 10 by omega, show ¬ 14 ≤ f.length - 10 by omega]
+      · simp [h10]
+  · -- Dot11QoSData
+    simp only [if_true, layout_qosdata]
+    unfold Dot11.parseWith Dot11.parseBase Dot11.parseExt wireInner
+    simp only [Tins.Cursor.ofBytes, Tins.Cursor.read, Tins.Cursor.skip, Tins.Cursor.canRead, bind, Tins.Out.bind, pure,
+      Bool.false_eq_true, if_false, Dot11.readChunks, Dot11.parseOpts, if_true, Tins.Cursor.toBool, Tins.Wire.Cursor.rest,
+      Tins.rdN]
+    by_cases h24 : 24 ≤ f.length
+    · have hboth : bothDS (f.take 10) = ((f.getD 1 0 &&& 1 != 0) && (f.getD 1 0 &&& 2 != 0)) := by
+        unfold bothDS byteAt
+        rw [getD_take f 10 1 (by omega)]
+        exact both_bits _
+      have h10 : 10 ≤ f.length := by omega
+      simp only [h10, show ¬ (f.length < 10) by omega, show ¬ (10 > f.length) by omega, show 14 ≤ f.length - 10 by omega,
+        show ¬ ((f.drop 10).length < 14) by simp; omega, decide_true, Bool.not_true, Bool.false_eq_true, if_false]
+      rw [hboth]
+      have e3 : List.drop 14 (List.drop 10 f) = List.drop 24 f := by simp [List.drop_drop]
+      cases hb : ((f.getD 1 0 &&& 1 != 0) && (f.getD 1 0 &&& 2 != 0))
+      · by_cases h26 : 26 ≤ f.length
+        · have e1 : List.drop 2 (List.drop 24 f) = List.drop 26 f := by simp [List.drop_drop]
+          by_cases hgt : f.length ≤ 26
+          · have : f.length = 26 := by omega
+            simp [this, e1]
+          · simp [show ¬ f.length < 24 by omega, show ¬ f.length < 26 by omega, show 2 ≤ f.length - 24 by omega,
+              show ¬ f.length - 24 < 2 by omega, e1, hgt, show f.length - 24 - 2 > 0 by omega,
+              show 0 + (f.length - 24 - 2) ≤ (f.drop 26).length by simp; omega]
+            rw [if_pos (by omega), List.take_of_length_le (by simp; omega)]
+            simp only []
+            split <;> rfl
+        · simp [show ¬ f.length < 24 by omega, show f.length < 26 by omega, show ¬ 2 ≤ f.length - 24 by omega]
+      · by_cases h32 : 32 ≤ f.length
+        · have e1 : List.drop 2 (List.drop 30 f) = List.drop 32 f := by simp [List.drop_drop]
+          by_cases hgt : f.length ≤ 32
+          · have : f.length = 32 := by omega
+            simp [this, e1, e3]
+          · simp [show 6 ≤ f.length - 10 - 14 by omega, show ¬ f.length - 24 < 6 by omega, show ¬ f.length - 10 - 14 < 6 by omega,
+              e3, show ¬ f.length < 30 by omega, show ¬ f.length < 32 by omega, show 2 ≤ f.length - 30 by omega,
+              show ¬ f.length - 30 < 2 by omega, e1, hgt, show f.length - 30 - 2 > 0 by omega,
+              show 0 + (f.length - 30 - 2) ≤ (f.drop 32).length by simp; omega]
+            rw [if_pos (by omega), List.take_of_length_le (by simp; omega)]
+            simp only []
+            split <;> rfl
+        · by_cases h30 : 30 ≤ f.length
+          · simp [show 6 ≤ f.length - 10 - 14 by omega, show ¬ f.length - 24 < 6 by omega, show ¬ f.length - 10 - 14 < 6 by omega,
+              e3, show ¬ f.length < 30 by omega, show f.length < 32 by omega, show ¬ 2 ≤ f.length - 30 by omega]
+          · simp [show ¬ 6 ≤ f.length - 10 - 14 by omega, show f.length < 32 by omega]
+    · have hlt : f.length < (if ((f.getD 1 0 &&& 1 != 0) && (f.getD 1 0 &&& 2 != 0)) = true then 30 else 24) + 2 := by
+        split <;> omega
+      rw [if_pos hlt]
+      by_cases h10 : 10 ≤ f.length
+      · simp [h10, show ¬ f.length < 10 by omega, show ¬ 14 ≤ f.length - 10 by omega]
+      · simp [h10]
+
+open Tins.Wire.Wifi in
+/-- the C09 view of a `Dot11Data` / `Dot11QoSData` object of the wire family -/
+def dataHdrView (d : Dot11) : Hdr :=
+  { fc0 := d.hdr.getD 0 0, fc1 := d.hdr.getD 1 0, dur0 := d.hdr.getD 2 0, dur1 := d.hdr.getD 3 0,
+    addr1 := (d.hdr.drop 4).take 6, addr2 := d.ext.take 6, addr3 := (d.ext.drop 6).take 6,
+    sc0 := d.ext.getD 12 0, sc1 := d.ext.getD 13 0, addr4 := d.addr4,
+    qos := if d.lay.body == [2] then some (d.body.getD 0 0, d.body.getD 1 0) else none }
+
+/-- what `Dot11Data` hangs below itself, in the C09 model: nothing, a `RawPDU` (protected frames), or the `SNAP` the
+    constructor builds (whose exceptions propagate: there is no try / catch around `new SNAP`) -/
+def frameOf (ip : InnerParser) (h : Hdr) (i : Tins.Wire.Inner) : Tins.Crypto.Out Parsed :=
+  match i with
+  | .none => Tins.Crypto.Out.ok (.data ⟨h, .none⟩)
+  | .raw b => Tins.Crypto.Out.ok (.data ⟨h, .raw b⟩)
+  | .cls _ b _ =>
+    match snapParse ip b with
+    | Tins.Crypto.Out.ok s => Tins.Crypto.Out.ok (.data ⟨h, .snap s⟩)
+    | Tins.Crypto.Out.throw e => Tins.Crypto.Out.throw e
+    | Tins.Crypto.Out.fault a b c => Tins.Crypto.Out.fault a b c
+
+set_option maxRecDepth 8000 in
+theorem data_dispatch : ∀ x : UInt8, (x >>> 2) &&& 3 = 2 →
+    x.toNat / 4 % 4 = 2 ∧ (decide (x.toNat / 16 % 16 ≤ 4) = !decide ((x >>> 4) > (4 : UInt8))) :=
+  forall_uint8 _ (by decide)
+
+set_option maxRecDepth 8000 in
+theorem wep_bit : ∀ x : UInt8, (x.toNat / 64 % 2 == 1) = (x &&& 0x40 != 0) :=
+  forall_uint8 _ (by decide)
+
+open Tins.Wire.Wifi in
+theorem fromBytes_data (fc0 fc1 : UInt8) (r : Bytes) (hty : (fc0 >>> 2) &&& 3 = 2) :
+    Dot11.fromBytes (fc0 :: fc1 :: r) =
+      Dot11.parse (if decide ((fc0 >>> 4) > (4 : UInt8)) then "Dot11QoSData" else "Dot11Data") (fc0 :: fc1 :: r) := by
+  obtain ⟨h1, h2⟩ := data_dispatch fc0 hty
+  unfold Dot11.fromBytes
+  simp only [List.length_cons, show ¬ (r.length + 1 + 1 < 2) by omega, if_false, Tins.rdN,
+    show 0 + 2 ≤ r.length + 1 + 1 by omega, if_true, Tins.Out.bind_ok, List.drop_zero, List.take_succ_cons, List.take_zero]
+  have hb : byteAt [fc0, fc1] 0 = fc0.toNat := rfl
+  rw [hb]
+  unfold Dot11.dispatch
+  simp only [h1]
+  cases hq : decide ((fc0 >>> 4) > (4 : UInt8))
+  · rw [hq] at h2
+    have : fc0.toNat / 16 % 16 ≤ 4 := by simpa using h2
+    simp [this]
+  · rw [hq] at h2
+    have : ¬ fc0.toNat / 16 % 16 ≤ 4 := by simpa using h2
+    simp [this]
+
+theorem zeros6 : Tins.Wire.Wifi.zeros 6 = [0, 0, 0, 0, 0, 0] := rfl
+
+theorem getD_drop' (l : Bytes) (n i : Nat) : (l.drop n).getD i 0 = l.getD (n + i) 0 := by
+  simp [List.getD, List.getElem?_drop]
+
+open Tins.Wire.Wifi in
+/-- the header fields of the wire object, read back through the C09 view, are the fields `parseFrame` reads -/
+theorem hdr_view_eq (cls : String) (fc0 fc1 : UInt8) (r a4 qb : Bytes) (qs : Bool) (h22 : 22 ≤ r.length) :
+    dataHdrView ⟨cls, ⟨.data, if qs then [2] else [], false, true⟩, List.take 10 (fc0 :: fc1 :: r),
+        List.take 14 (List.drop 10 (fc0 :: fc1 :: r)), a4, qb, [], 0⟩ =
+      { fc0 := fc0, fc1 := fc1, dur0 := r.getD 0 0, dur1 := r.getD 1 0, addr1 := (r.drop 2).take 6,
+        addr2 := (r.drop 8).take 6, addr3 := (r.drop 14).take 6, sc0 := r.getD 20 0, sc1 := r.getD 21 0, addr4 := a4,
+        qos := if qs then some (qb.getD 0 0, qb.getD 1 0) else none } := by
+  unfold dataHdrView
+  have e10 : List.take 10 (fc0 :: fc1 :: r) = fc0 :: fc1 :: List.take 8 r := by simp
+  have ed : List.drop 10 (fc0 :: fc1 :: r) = List.drop 8 r := by simp
+  simp only [e10, ed, List.getD_cons_zero, List.getD_cons_succ, List.drop_succ_cons]
+  have a1 : List.take 6 (List.drop 2 (List.take 8 r)) = List.take 6 (List.drop 2 r) := by
+    rw [List.drop_take, List.take_take]; simp
+  have a2 : List.take 6 (List.take 14 (List.drop 8 r)) = List.take 6 (List.drop 8 r) := by
+    rw [List.take_take]; simp
+  have a3 : List.take 6 (List.drop 6 (List.take 14 (List.drop 8 r))) = List.take 6 (List.drop 14 r) := by
+    rw [List.drop_take, List.take_take, List.drop_drop]; simp
+  have s0 : (List.take 14 (List.drop 8 r)).getD 12 0 = r.getD 20 0 := by
+    rw [getD_take _ 14 12 (by omega), getD_drop']
+  have s1 : (List.take 14 (List.drop 8 r)).getD 13 0 = r.getD 21 0 := by
+    rw [getD_take _ 14 13 (by omega), getD_drop']
+  have d0 : (List.take 8 r).getD 0 0 = r.getD 0 0 := getD_take r 8 0 (by omega)
+  have d1 : (List.take 8 r).getD 1 0 = r.getD 1 0 := getD_take r 8 1 (by omega)
+  rw [a1, a2, a3, s0, s1, d0, d1]
+  cases qs <;> rfl
+
+open Tins.Wire.Wifi in
+/-- **Dot11Data / Dot11QoSData parsing tie.** On every byte string whose frame-control type is Data, `Dot11::from_bytes`
+    of the wire family and the C09 model's `parseFrame` agree: both throw `malformed_packet`, or the model's header is
+    the view of the wire object (frame control, duration, the three / four addresses, sequence control, QoS control
+    exactly for the `Dot11QoSData` class) and the model's payload is what the constructor hangs below it. -/
+theorem parseFrame_data_agrees (ip : InnerParser) (fc0 fc1 : UInt8) (r : Bytes) (hty : (fc0 >>> 2) &&& 3 = 2) :
+    (∃ d i, Dot11.fromBytes (fc0 :: fc1 :: r) = .ok (d, i) ∧
+        parseFrame ip (fc0 :: fc1 :: r) = frameOf ip (dataHdrView d) i) ∨
+    (Dot11.fromBytes (fc0 :: fc1 :: r) = .throw .malformedPacket ∧
+        parseFrame ip (fc0 :: fc1 :: r) = Tins.Crypto.Out.throw .malformedPacket) := by
+  rw [fromBytes_data fc0 fc1 r hty, wire_data_eq]
+  have hnb : ((fc0 >>> 2) &&& 3 == 0 && fc0 >>> 4 == 8) = false := by rw [hty]; rfl
+  have hnd : ((fc0 >>> 2) &&& 3 != 2) = false := by rw [hty]; rfl
+  have hwep : (byteAt (List.take 10 (fc0 :: fc1 :: r)) 1 / 64 % 2 == 1) = (fc1 &&& 0x40 != 0) := by
+    have : byteAt (List.take 10 (fc0 :: fc1 :: r)) 1 = fc1.toNat := by simp [byteAt]
+    rw [this]; exact wep_bit fc1
+  unfold parseFrame
+  simp only [hnb, hnd, Bool.false_eq_true, if_false, List.getD_cons_succ, List.getD_cons_zero, List.length_cons]
+  cases hb : ((fc1 &&& 1 != 0) && (fc1 &&& 2 != 0)) <;> cases hq : decide ((fc0 >>> 4) > (4 : UInt8))
+  all_goals simp only [Bool.false_eq_true, if_false, if_true, Bool.false_and, Bool.true_and, decide_eq_true_eq,
+    Nat.add_zero]
+  · -- three addresses, Dot11Data
+    by_cases hl : r.length < 22
+    · right; simp [hl, show r.length + 1 + 1 < 24 by omega]
+    · left
+      simp only [hl, if_false, show ¬ (r.length + 1 + 1 < 24) by omega]
+      refine ⟨_, _, rfl, ?_⟩
+      have hv := hdr_view_eq "Dot11Data" fc0 fc1 r (zeros 6) (List.take 0 (List.drop 24 (fc0 :: fc1 :: r))) false (by omega)
+      simp only [Bool.false_eq_true, if_false] at hv
+      rw [hv, zeros6]
+      unfold wireInner frameOf
+      rw [hwep]
+      have hd : List.drop 24 (fc0 :: fc1 :: r) = List.drop 22 r := by simp
+      simp only [List.length_cons, hd]
+      by_cases he : r.length + 1 + 1 ≤ 24
+      · have : (List.drop 22 r).isEmpty = true := by simp; omega
+        simp [he, this]
+      · have : (List.drop 22 r).isEmpty = false := by
+          cases hx : List.drop 22 r with
+          | nil => have := List.drop_eq_nil_iff.mp hx; omega
+          | cons a l => rfl
+        simp only [he, if_false, this, Bool.false_eq_true, Hdr.wep]
+        by_cases hw : (fc1 &&& 0x40 != 0) = true
+        · simp [hw]
+        · simp [hw]
+          cases snapParse ip (List.drop 22 r) <;> rfl
+  · -- three addresses, Dot11QoSData
+    by_cases hl : r.length < 24
+    · right
+      have h1 : r.length + 1 + 1 < 24 + 2 := by omega
+      refine ⟨by simp only [h1, if_true], ?_⟩
+      by_cases h22 : r.length < 22
+      · simp [h22]
+      · simp [h22, show ¬ r.length < 22 by omega]; intros; omega
+    · left
+      simp only [show ¬ (r.length + 1 + 1 < 24 + 2) by omega, if_false]
+      refine ⟨_, _, rfl, ?_⟩
+      have hv := hdr_view_eq "Dot11QoSData" fc0 fc1 r (zeros 6) (List.take 2 (List.drop 24 (fc0 :: fc1 :: r))) true (by omega)
+      simp only [Bool.false_eq_true, if_false, if_true] at hv
+      rw [hv]
+      unfold wireInner frameOf
+      rw [hwep]
+      have hd : List.drop (24 + 2) (fc0 :: fc1 :: r) = List.drop 24 r := by simp
+      have hd4 : List.drop 24 (fc0 :: fc1 :: r) = List.drop 22 r := by simp
+      have hdq : List.drop 24 (fc0 :: fc1 :: r) = List.drop 22 r := by simp
+      have hdd : List.drop 2 (List.drop 22 r) = List.drop 24 r := by simp [List.drop_drop]
+      have hdd6 : List.drop 6 (List.drop 22 r) = List.drop 28 r := by simp [List.drop_drop]
+      have hq0 : (List.take 2 (List.drop 22 r)).getD 0 0 = (List.drop 22 r).getD 0 0 := getD_take _ 2 0 (by omega)
+      have hq1 : (List.take 2 (List.drop 22 r)).getD 1 0 = (List.drop 22 r).getD 1 0 := getD_take _ 2 1 (by omega)
+      simp only [List.length_cons, hd, hd4, hdq, hdd, hdd6, hq0, hq1, zeros6, List.length_drop,
+        show ¬ r.length < 22 by omega, show ¬ r.length - 22 < 2 by omega, if_false]
+      by_cases he : r.length + 1 + 1 ≤ 24 + 2
+      · have : (List.drop 24 r).isEmpty = true := by simp; omega
+        simp [he, this]
+      · have : (List.drop 24 r).isEmpty = false := by
+          cases hx : List.drop 24 r with
+          | nil => have := List.drop_eq_nil_iff.mp hx; omega
+          | cons a l => rfl
+        simp only [he, if_false, this, Bool.false_eq_true, Hdr.wep]
+        by_cases hw : (fc1 &&& 0x40 != 0) = true
+        · simp [hw]
+        · simp [hw]
+          cases snapParse ip (List.drop 24 r) <;> rfl
+  · -- four addresses, Dot11Data
+    by_cases hl : r.length < 28
+    · right
+      have h1 : r.length + 1 + 1 < 30 + 0 := by omega
+      refine ⟨by simp only [h1, if_true], ?_⟩
+      by_cases h22 : r.length < 22
+      · simp [h22]
+      · simp [h22, show ¬ r.length < 22 by omega]; intros; omega
+    · left
+      simp only [show ¬ (r.length + 1 + 1 < 30 + 0) by omega, if_false]
+      refine ⟨_, _, rfl, ?_⟩
+      have hv := hdr_view_eq "Dot11Data" fc0 fc1 r (List.take 6 (List.drop 24 (fc0 :: fc1 :: r))) (List.take 0 (List.drop 30 (fc0 :: fc1 :: r))) false (by omega)
+      simp only [Bool.false_eq_true, if_false, if_true] at hv
+      rw [hv]
+      unfold wireInner frameOf
+      rw [hwep]
+      have hd : List.drop (30 + 0) (fc0 :: fc1 :: r) = List.drop 28 r := by simp
+      have hd4 : List.drop 24 (fc0 :: fc1 :: r) = List.drop 22 r := by simp
+      have hdq : List.drop 30 (fc0 :: fc1 :: r) = List.drop 28 r := by simp
+      have hdd : List.drop 2 (List.drop 28 r) = List.drop 30 r := by simp [List.drop_drop]
+      have hdd6 : List.drop 6 (List.drop 22 r) = List.drop 28 r := by simp [List.drop_drop]
+      have hq0 : (List.take 2 (List.drop 28 r)).getD 0 0 = (List.drop 28 r).getD 0 0 := getD_take _ 2 0 (by omega)
+      have hq1 : (List.take 2 (List.drop 28 r)).getD 1 0 = (List.drop 28 r).getD 1 0 := getD_take _ 2 1 (by omega)
+      simp only [List.length_cons, hd, hd4, hdq, hdd, hdd6, hq0, hq1, zeros6, List.length_drop,
+        show ¬ r.length < 22 by omega, show ¬ r.length - 22 < 6 by omega, if_false]
+      by_cases he : r.length + 1 + 1 ≤ 30 + 0
+      · have : (List.drop 28 r).isEmpty = true := by simp; omega
+        simp [he, this]
+      · have : (List.drop 28 r).isEmpty = false := by
+          cases hx : List.drop 28 r with
+          | nil => have := List.drop_eq_nil_iff.mp hx; omega
+          | cons a l => rfl
+        simp only [he, if_false, this, Bool.false_eq_true, Hdr.wep]
+        by_cases hw : (fc1 &&& 0x40 != 0) = true
+        · simp [hw]
+        · simp [hw]
+          cases snapParse ip (List.drop 28 r) <;> rfl
+  · -- four addresses, Dot11QoSData
+    by_cases hl : r.length < 30
+    · right
+      have h1 : r.length + 1 + 1 < 30 + 2 := by omega
+      refine ⟨by simp only [h1, if_true], ?_⟩
+      by_cases h22 : r.length < 22
+      · simp [h22]
+      · simp [h22, show ¬ r.length < 22 by omega]; intros; omega
+    · left
+      simp only [show ¬ (r.length + 1 + 1 < 30 + 2) by omega, if_false]
+      refine ⟨_, _, rfl, ?_⟩
+      have hv := hdr_view_eq "Dot11QoSData" fc0 fc1 r (List.take 6 (List.drop 24 (fc0 :: fc1 :: r))) (List.take 2 (List.drop 30 (fc0 :: fc1 :: r))) true (by omega)
+      simp only [Bool.false_eq_true, if_false, if_true] at hv
+      rw [hv]
+      unfold wireInner frameOf
+      rw [hwep]
+      have hd : List.drop (30 + 2) (fc0 :: fc1 :: r) = List.drop 30 r := by simp
+      have hd4 : List.drop 24 (fc0 :: fc1 :: r) = List.drop 22 r := by simp
+      have hdq : List.drop 30 (fc0 :: fc1 :: r) = List.drop 28 r := by simp
+      have hdd : List.drop 2 (List.drop 28 r) = List.drop 30 r := by simp [List.drop_drop]
+      have hdd6 : List.drop 6 (List.drop 22 r) = List.drop 28 r := by simp [List.drop_drop]
+      have hq0 : (List.take 2 (List.drop 28 r)).getD 0 0 = (List.drop 28 r).getD 0 0 := getD_take _ 2 0 (by omega)
+      have hq1 : (List.take 2 (List.drop 28 r)).getD 1 0 = (List.drop 28 r).getD 1 0 := getD_take _ 2 1 (by omega)
+      simp only [List.length_cons, hd, hd4, hdq, hdd, hdd6, hq0, hq1, zeros6, List.length_drop,
+        show ¬ r.length < 22 by omega, show ¬ r.length - 22 < 6 by omega, show ¬ r.length - 28 < 2 by omega, if_false]
+      by_cases he : r.length + 1 + 1 ≤ 30 + 2
+      · have : (List.drop 30 r).isEmpty = true := by simp; omega
+        simp [he, this]
+      · have : (List.drop 30 r).isEmpty = false := by
+          cases hx : List.drop 30 r with
+          | nil => have := List.drop_eq_nil_iff.mp hx; omega
+          | cons a l => rfl
+        simp only [he, if_false, this, Bool.false_eq_true, Hdr.wep]
+        by_cases hw : (fc1 &&& 0x40 != 0) = true
+        · simp [hw]
+        · simp [hw]
+          cases snapParse ip (List.drop 30 r) <;> rfl
+
 end Tins.CryptoWire
